@@ -1903,3 +1903,41 @@ M("v12-eq-is-xor", "C01", "fire V12", "src/circuit.rs",
   """        let xor = self.push_xor(x, y);
         self.push_xor(xor, 0)
     }""", "push_eq computes inequality")
+
+# ---------------------------------------------------------------- ninth seed batch as mutants
+M("t8-match-clauses-only-constrained", "C17", "fire T8", "src/check.rs",
+  """                            if let Type::Unsigned(expected) = ret_ty {
+                                check_or_constrain_unsigned(expr, expected)?;
+                            } else if let Type::Signed(expected) = ret_ty {
+                                check_or_constrain_signed(expr, expected)?;
+                            } else {
+                                let e = TypeErrorEnum::UnexpectedType {
+                                    expected: ret_ty.clone(),
+                                    actual: expr.ty.clone(),
+                                };
+                                errors.push(Some(TypeError::new(e, expr.meta)));
+                            }""",
+  """                            constrain_type(expr, &ret_ty)?;""", "seed C17-f: differing clause types only go through constrain_type (never rejects non-numeric types)")
+M("t9-consts-checked-against-all", "C17", "fire T9", "src/check.rs",
+  """                    &mut errors,
+                    &const_defs,
+                    &mut const_deps,""",
+  """                    &mut errors,
+                    &self.const_defs,
+                    &mut const_deps,""", "seed C05-f: forward references between consts are accepted")
+M("u2-cache-bounded", "C15", "fire U2", "src/circuit.rs",
+  """        if self.opts.cache_gates {
+            self.cache.insert(gate, gate_idx);
+        }""",
+  """        if self.opts.cache_gates && self.cache.len() < (1 << 16) {
+            self.cache.insert(gate, gate_idx);
+        }""", "seed C15-e: gates built after the cache is full are never shared")
+M("e9-fncall-args-on-discarded-env", "C14", "fire E9", "src/compile.rs",
+  """                    env.push();
+                    let arg = arg.compile(prg, env, circuit);
+                    bindings.push((param.name.clone(), arg));
+                    env.pop();""",
+  """                    let mut arg_env = env.clone();
+                    arg_env.push();
+                    let arg = arg.compile(prg, &mut arg_env, circuit);
+                    bindings.push((param.name.clone(), arg));""", "seed C01-f: assignments inside argument expressions are dropped")
